@@ -344,11 +344,14 @@ theorem C13_bbox_labeled_oracle_eq_model (shape : List Nat) (labels : List Int) 
     bboxLabeledSpec shape labels n = bboxLabeled shape labels n :=
   bboxLabeledSpec_eq shape labels n hnn hlen hnd
 
-/-- **C13 oracle (borders, six modes).** With all axes non-empty the oracle (mathematical border rule) is the
-model (transliterated `fix_offset`), for every label list and every list of offsets. -/
-theorem C13_borders_oracle_eq_model (m : Mode) (shape : List Nat) (labels : List Int) (offs : List (List Int))
-    (hs : ∀ d ∈ shape, 0 < d) : bordersSpec m shape labels offs = bordersModel m shape labels offs :=
-  (bordersModel_eq_spec m shape labels offs hs).symm
+/-- **C13 oracle (borders, six modes).** For every label list and every list of offsets the oracle (mathematical
+border rule) is the model (transliterated `fix_offset`) when all axes are non-empty or there is no pixel at all —
+which covers every array that fills its shape (second statement). -/
+theorem C13_borders_oracle_eq_model (m : Mode) (shape : List Nat) (labels : List Int) (offs : List (List Int)) :
+    ((∀ d ∈ shape, 0 < d) ∨ labels = [] → bordersSpec m shape labels offs = bordersModel m shape labels offs) ∧
+    (labels.length = shapeSize shape → bordersSpec m shape labels offs = bordersModel m shape labels offs) :=
+  ⟨bordersSpec_eq m shape labels offs,
+   fun hlen => bordersSpec_eq m shape labels offs (pos_or_nil_of_full shape labels hlen)⟩
 
 /-- **C13 oracle (border(i, j)).** For a structuring element of the rank of the image the oracle is the model. -/
 theorem C13_border_oracle_eq_model (shape : List Nat) (labels : List Int) (bshape : List Nat) (bc : Array Int)
@@ -356,10 +359,12 @@ theorem C13_border_oracle_eq_model (shape : List Nat) (labels : List Int) (bshap
     borderSpec2 shape labels (C03.offsets bshape bc) li lj = borderModel shape labels (C03.offsets bshape bc) li lj :=
   (C13_border_spec shape labels bshape bc hnd li lj).symm
 
-/-- **C13 oracle (bwperim).** With all axes non-empty the oracle is the model. -/
-theorem C13_bwperim_oracle_eq_model (m : Mode) (shape : List Nat) (bw : List Int) (offs : List (List Int))
-    (hs : ∀ d ∈ shape, 0 < d) : bwperimSpec m shape bw offs = bwperim m shape bw offs :=
-  (bwperim_eq_spec m shape bw offs hs).symm
+/-- **C13 oracle (bwperim).** The oracle is the model when all axes are non-empty or there is no pixel at all;
+in particular for every array that fills its shape. -/
+theorem C13_bwperim_oracle_eq_model (m : Mode) (shape : List Nat) (bw : List Int) (offs : List (List Int)) :
+    ((∀ d ∈ shape, 0 < d) ∨ bw = [] → bwperimSpec m shape bw offs = bwperim m shape bw offs) ∧
+    (bw.length = shapeSize shape → bwperimSpec m shape bw offs = bwperim m shape bw offs) :=
+  ⟨bwperimSpec_eq m shape bw offs, fun hlen => bwperimSpec_eq m shape bw offs (pos_or_nil_of_full shape bw hlen)⟩
 
 /-- **C13 oracle (labeled_sum, integer and bool dtypes).** Slot `l < n` of the oracle the driver prints for
 `op=sum` (`foldSpec`: the exact integer sum of the values labelled `l`; for bool the `or`) equals slot `l` of the
@@ -454,6 +459,31 @@ theorem C13_labeled_max_min_float_oracle_eq_model_of_monotone (emb : Int → Flo
   rw [List.getElem?_map, List.getElem?_map]
   exact maxMinFloat_slot_of_monotone emb lowest highest n data labels l hl hne hlow hhigh hmono
 
+/-- **C13 oracle (center_of_mass at `Float`, conditional).** About the very definition the driver runs
+(`comModel = comModelG floatOps`) on the data `ks.map emb` (the driver: `emb k = Float.ofInt k / scale`), for
+non-negative labels (`labels = []` = no label map): the model's output is, entry for entry, `emb num / emb den`
+of the exact integer pairs `(num, den) = (Σ k·coord_j, Σ k)` the oracle `comSpec` computes, **provided**
+`emb 0 = 0.0` and every step of the two accumulations of the kernel is exact on the pixels of each label in scan
+order: `totals[l] += v` (`emb s + emb k = emb (s + k)`) and `centers[l][j] += v * coord_j`
+(`emb s + emb k * Float.ofNat c = emb (s + k·c)`). The driver prints the oracle as
+`Float.ofInt num / Float.ofInt den`, which is `emb num / emb den` when dividing both by the power of two `scale`
+is exact. These IEEE facts on the data the harness generates (|values| < 2^53, dyadic) are the whole remaining
+trusted gap for `center_of_mass` (Lean's `Float` is opaque; validated by the run). -/
+theorem C13_com_float_oracle_eq_model_of_exact (emb : Int → Float) (shape : List Nat) (ks labels : List Int)
+    (hnn : ∀ v ∈ labels, 0 ≤ v) (h0 : emb 0 = 0.0)
+    (htot : ∀ (l : Nat) (pre : List Nat) (i : Nat) (rest : List Nat),
+      ((List.range ks.length).filter fun i => labels.getD i 0 == (l : Int)) = pre ++ i :: rest →
+      emb (pre.map fun i => ks.getD i 0).sum + emb (ks.getD i 0) =
+        emb ((pre.map fun i => ks.getD i 0).sum + ks.getD i 0))
+    (hrow : ∀ (l j : Nat), j < shape.length → ∀ (pre : List Nat) (i : Nat) (rest : List Nat),
+      ((List.range ks.length).filter fun i => labels.getD i 0 == (l : Int)) = pre ++ i :: rest →
+      emb (pre.map fun i => ks.getD i 0 * ((unravel shape i).getD j 0 : Nat)).sum +
+          emb (ks.getD i 0) * Float.ofNat ((unravel shape i).getD j 0) =
+        emb ((pre.map fun i => ks.getD i 0 * ((unravel shape i).getD j 0 : Nat)).sum +
+          ks.getD i 0 * ((unravel shape i).getD j 0 : Nat))) :
+    comModel shape (ks.map emb) labels = (comSpec shape ks labels).map fun nd => emb nd.1 / emb nd.2 :=
+  comModelG_of_exact floatOps emb shape ks labels hnn h0 htot hrow
+
 /-- **C13 oracle soundness (relabel).** The oracle `relabelSpec` itself satisfies the Prop-level characterisation
 of `C13_relabel_spec`: one function fixing 0, injective on the occurring labels, new labels `1..n` in order of
 first appearance, `n` returned. -/
@@ -495,3 +525,11 @@ example : relabelSpec [7, 0, 7, 3, -2, 3] = ([1, 0, 1, 2, 3, 2], 3) ∧
     comSpec [2, 2] [1, 2, 3, 4] [] = [(7, 10), (6, 10)] ∧
     filterLabeledSpec [1, 4] [1, 1, 0, 2] false 2 0 = ([1, 1, 0, 0], 1) := by
   decide
+
+/-! non-vacuity of the conditional transfer theorem: its exactness hypotheses hold in every field (exact
+    arithmetic), where it re-proves `C13_com_oracle_eq_model`; at `Float` they are IEEE facts Lean cannot state -/
+example {α : Type} [Field α] (shape : List Nat) (ks labels : List Int) (hnn : ∀ v ∈ labels, 0 ≤ v) :
+    comModelG (fieldOps α) shape (ks.map fun k => ((k : Int) : α)) labels =
+      (comSpec shape ks labels).map fun nd => ((nd.1 : Int) : α) / ((nd.2 : Int) : α) :=
+  comModelG_of_exact (fieldOps α) (fun k => ((k : Int) : α)) shape ks labels hnn (by simp [fieldOps])
+    (by intros; simp [fieldOps]) (by intros; simp [fieldOps])
